@@ -175,6 +175,8 @@ static void functional(int lambda_or_0, int tr) {
             out.evaluations++;
             if (memcmp(r1->a, r2->a, 4 * n) || r1->b != r2->b)
                 out.viol(std::string("io:functional:gate-output-differs-under-imported-cloud-key"), J().s("gate", GATES[g].name).i("inputs", v).i("transport", tr).i("lambda", lambda_or_0));
+            else if (r1->current_variance != r2->current_variance)      // the whole ciphertext object, annotation included (it is exported with the ciphertext)
+                out.viol(std::string("io:functional:gate-output-differs-under-imported-cloud-key"), J().s("gate", GATES[g].name).i("inputs", v).i("transport", tr).i("lambda", lambda_or_0).s("field", "current_variance").d("original_key", r1->current_variance).d("imported_key", r2->current_variance));
             // the re-imported secret key decrypts identically (phase and bit)
             U p1 = ref_lwe_phase(r1, sk->lwe_key->key, n), p2 = ref_lwe_phase(r1, sk2->lwe_key->key, n);
             if (p1 != p2 || bootsSymDecrypt(r1, sk) != bootsSymDecrypt(r1, sk2))
